@@ -56,6 +56,11 @@ func (x *RoundRobin) Set(nodes ...*Node) {
 func (x *RoundRobin) Next() *Node {
 	x.locker.Lock()
 	defer x.locker.Unlock()
-	n := atomic.AddUint32(&x.next, 1)
-	return x.nodes[(int(n)-1)%len(x.nodes)]
+	// keep the counter reduced modulo the pool size: a free-running uint32
+	// wraps to 0 after 2^32 calls, which made (int(n)-1)%len negative (index
+	// panic) and breaks the cyclic order when len does not divide 2^32
+	size := uint32(len(x.nodes))
+	idx := atomic.LoadUint32(&x.next) % size
+	atomic.StoreUint32(&x.next, (idx+1)%size)
+	return x.nodes[idx]
 }
